@@ -43,6 +43,44 @@ CONTAIN = Skeleton("p02_containment", {
 OUTSIDE_SRC = "{0} = 1\n"
 
 
+CONTAIN2 = Skeleton("p04_containment_classes_and_resources", {
+    "main.py": "import outside\nimport ignored_mod\nimport lib\nfrom lib import twice\nclass Owner:\n    def __init__(self):\n        self.helper = outside.Helper()\n        self.other = ignored_mod.Other()\n        self.mate = lib.Mate()\n        self.{0} = 2\n    def work(self, {1}):\n        return self.{0} * {1}\nprint(Owner().work(3), twice(2), lib.twice(1), lib.Mate().size, outside.ext(1))\n",
+    "lib.py": "class Mate:\n    size = 1\ndef twice({2}):\n    return {2} * 2\n",
+    "other.py": "import lib\nfrom lib import twice\nval = lib.twice(3) + twice(1) + lib.Mate().size\n",
+    "ignored_mod.py": "class Other:\n    pass\n",
+    "dest.py": "yy = 0\n"})
+OUTSIDE2_SRC = "class Helper:\n    pass\ndef ext(v):\n    return v + 1\n"
+
+
+def _contain2_ops(cf):
+    """name -> operation on the concrete project: destinations outside the project / ignored, and the
+    resources= restriction (performing must stay inside the listed resources)"""
+    m, lb = cf["main.py"], cf["lib.py"]
+    work = m.index("def work") + 4
+    use_twice = m.index("twice(2)")
+    def_twice = lb.index("def twice") + 4
+    return {
+        "move_method.out_of_project_class": dict(api="move_method", path="main.py", offset=work, dest_attr="helper", new_name="moved"),
+        "move_method.ignored_class": dict(api="move_method", path="main.py", offset=work, dest_attr="other", new_name="moved"),
+        "move_method.restricted": dict(api="move_method", path="main.py", offset=work, dest_attr="mate", new_name="moved", resources=["main.py"]),
+        "rename.restricted_to_user": dict(api="rename", path="main.py", offset=use_twice, name="zz", resources=["main.py"]),
+        "rename.restricted_to_definer": dict(api="rename", path="lib.py", offset=def_twice, name="zz", resources=["lib.py"]),
+        "inline.restricted_to_user": dict(api="inline", path="main.py", offset=use_twice, resources=["main.py"]),
+        "inline.only_current": dict(api="inline", path="main.py", offset=use_twice, remove=True, only_current=True),
+        "change_signature.restricted_to_user": dict(api="change_signature", path="main.py", offset=use_twice, changers=[["norm"]], resources=["main.py"]),
+        "use_function.restricted_to_user": dict(api="use_function", path="lib.py", offset=def_twice, resources=["main.py"]),
+        "inline.only_current_defined_out_of_project": dict(api="inline", path="main.py", offset=m.index("ext(1)"), remove=True, only_current=True),
+        "inline.defined_out_of_project": dict(api="inline", path="main.py", offset=m.index("ext(1)")),
+        "encapsulate_field.restricted_to_definer": dict(api="encapsulate_field", path="lib.py", offset=lb.index("size"), resources=["lib.py"]),
+        "introduce_factory.restricted_to_definer": dict(api="introduce_factory", path="lib.py", offset=lb.index("Mate"), name="create", resources=["lib.py"]),
+    }
+
+
+CONTAIN2_OPS = ["move_method.out_of_project_class", "move_method.ignored_class", "move_method.restricted", "rename.restricted_to_user", "rename.restricted_to_definer",
+                "inline.restricted_to_user", "inline.only_current", "inline.only_current_defined_out_of_project", "inline.defined_out_of_project", "change_signature.restricted_to_user", "use_function.restricted_to_user",
+                "encapsulate_field.restricted_to_definer", "introduce_factory.restricted_to_definer"]
+
+
 def instances(tier):
     out = []
     step = BOUNDS[tier]["offset_step"]
@@ -54,6 +92,8 @@ def instances(tier):
     for q in range(8):
         for api in ("rename", "inline", "move_global", "change_signature"):
             out.append(("contain.q%d.%s" % (q, api), dict(kind="contain", q=q, api=api)))
+    for name in CONTAIN2_OPS:
+        out.append(("contain2.%s" % name, dict(kind="contain", family=2, opname=name)))
     return out
 
 
@@ -99,8 +139,9 @@ def make_errors(p):
 
 
 def make_contain(p):
-    sk = CONTAIN
-    api = p["api"]
+    fam2 = p.get("family") == 2
+    sk = CONTAIN2 if fam2 else CONTAIN
+    api = p["opname"].split(".")[0] if fam2 else p["api"]
 
     def run():
         E = core.ENGINE
@@ -109,18 +150,21 @@ def make_contain(p):
         files = instantiate(sk, names)
         from rsx.proj import build
 
-        outside_src = build(OUTSIDE_SRC, names)
+        outside_src = build(OUTSIDE2_SRC if fam2 else OUTSIDE_SRC, names)
         m = E.fresh_model()
         cf = cfiles(files, m)
         if not program_ok(cf):
             raise PathAbort()
         from harness.bcommon import occurrences_of_slots
 
-        occs = [o for o in occurrences_of_slots(sk, names) if o[0] == "main.py"]
-        if p["q"] >= len(occs):
-            raise PathAbort()
-        path, slot, off = occs[p["q"]]
-        op = c09_common.op_for(api, path, off, len(cf[path]))
+        if fam2:
+            op = _contain2_ops(cf)[p["opname"]]
+        else:
+            occs = [o for o in occurrences_of_slots(sk, names) if o[0] == "main.py"]
+            if p["q"] >= len(occs):
+                raise PathAbort()
+            path, slot, off = occs[p["q"]]
+            op = c09_common.op_for(api, path, off, len(cf[path]))
         parent = tempfile.mkdtemp(prefix="rsxc09")
         try:
             ext = os.path.join(parent, "ext")
@@ -156,6 +200,8 @@ def make_contain(p):
                     return h.fail("outside_root", "the change set lists %s which is outside the project root" % rp, model=m, skeleton=sk.name, files=files, op=op, outside=outside_src, partition=partition_sig(pat))
             if any(a == "ignored_mod.py" for a in announced):
                 return h.fail("touches_ignored", "the change set modifies the ignored resource ignored_mod.py", model=m, skeleton=sk.name, files=files, op=op, outside=outside_src, partition=partition_sig(pat))
+            if op.get("resources") is not None and not set(announced) <= set(op["resources"]):
+                return h.fail("outside_resources", "the change set lists %s, the refactoring was restricted to resources=%s" % (announced, op["resources"]), model=m, skeleton=sk.name, files=files, op=op, outside=outside_src, partition=partition_sig(pat))
             return h.sample(skeleton=sk.name, files=files, op=op, announced=announced)
         finally:
             from rsx import proj as rproj2
